@@ -440,8 +440,21 @@ def gnutls_units(prefix):
           "gnutls_sign_sha_pem/contract_ops_sign_sha_pem", stubs=GNUTLS_STUBS, defines=["VERIF_TU_GNUTLS_SV"], pre=[VS],
           expect=["contract_ops_sign_sha_pem\\.postcondition\\.2", "gnutls_privkey_sign_data\\.assertion"]),
     ]
+P["C01"]["units"] += gnutls_units("C01")[:2]
+P["C05"]["units"] += gnutls_units("C05")[2:]
 P["C12"]["units"] += gnutls_units("C12") + [dict(u, name=u["name"].replace("C01.", "C12.")) for u in ossl_units("C01")[:2]] + \
     [dict(ossl_units("C05")[3], name="C12.openssl_sign_sha_pem", replace=["jwt_ec_d2i/contract_C05_jwt_ec_d2i"])]
+
+# =================== JWK import (C07 / C08 / C09) ===========================
+JWKP = "libjwt/openssl/jwk-parse.c"
+JWKP_STUBS = LIBC + ["stubs/alloc.c", "stubs/jansson.c", "stubs/openssl.c", "stubs/openssl_jwk.c", "stubs/b64_shape.c"]
+def jwkp_unit(prop, fn):
+    c = "contract_C07_" + fn
+    return U("%s.%s" % (prop, fn), "%s -> set_one_bn / set_one_octet / set_ec_pub_key / pctx_to_pem (libjwt/openssl/jwk-parse.c)" % fn, JWKP,
+             "contracts/jwk_parse_c.h", "json_t *j; jwk_item_t *it; %s(j, it);" % fn, "%s/%s" % (fn, c),
+             replace=["jwt_strcmp/contract_exact_jwt_strcmp"], stubs=JWKP_STUBS, defines=["VERIF_B64_TRACK", "VERIF_ALLOC_RECORD_FAIL"], flags=[],
+             expect=[c + "\\.postcondition\\.2", c + "\\.postcondition\\.4"], timeout=900, replay={"driver": "replay/r_C07.c"})
+P["C07"] = {"property": "C07", "level": "proof", "units": [jwkp_unit("C07", f) for f in ("openssl_process_rsa", "openssl_process_ec", "openssl_process_eddsa")]}
 
 # ============================ parsing units =================================
 VERIFY_JSON_STUBS = LIBC + ["stubs/time.c", "stubs/jansson.c", "stubs/alloc.c"]
